@@ -24,7 +24,7 @@ RULE = (
     "resolve_syntatic_sugar on the AST, through Select(string) and through Select(callable); datasets incl. empty "
     "collections. (b) generated @dataclass / NamedTuple classes with 1-4 fields and every split of the arguments into "
     "positional + keyword (any keyword order), exhaustively; (c) malformed uses: tuple targets, async for, unknown keyword, "
-    "surplus arguments, starred arguments, a ** spread among the keywords, a keyword naming a field a positional argument already binds. Non-trivial = (a) >=1 if clause or a nested comprehension or a name collision, with a non-empty "
+    "surplus arguments, starred arguments, a ** spread among the keywords, a keyword naming a field a positional argument already binds, a keyword-only field given by position. Non-trivial = (a) >=1 if clause or a nested comprehension or a name collision, with a non-empty "
     "reference value; (b) >=2 fields with a mixed positional/keyword binding. Distinct by case text."
 )
 ASSUMPTIONS = [
@@ -92,6 +92,10 @@ def _comp_case(draw, maxdepth):
 def _dc_case(draw):
     n = draw(st.integers(1, 4))
     fields = FIELDS[:n]
+    if draw(st.integers(0, 14)) == 0:
+        # every field given by position although one of them is keyword-only: python's constructor refuses (surplus positional)
+        return {"kind": "dc", "style": "dataclass", "fields": fields, "pos": n, "kw": [], "bad": "kwonly-by-position", "variant": "kw_only_first",
+                "via": draw(st.sampled_from([None, None, "helper-twice"]))}
     npos = draw(st.integers(0, n))
     kw = draw(st.permutations(fields[npos:]))
     bad = draw(st.sampled_from([None, None, None, None, None, None, "unknown", "surplus", "starred", "spread", "twice"]))
